@@ -1,18 +1,25 @@
 package harness
 
 import (
+	"encoding/json"
 	"fmt"
+	"reflect"
 	"sort"
 	"strconv"
 	"testing"
 
 	corev1 "k8s.io/api/core/v1"
 	"pgregory.net/rapid"
+	"sigs.k8s.io/controller-runtime/pkg/client"
 
+	v1 "sigs.k8s.io/karpenter/pkg/apis/v1"
+	pscheduling "sigs.k8s.io/karpenter/pkg/controllers/provisioning/scheduling"
 	"sigs.k8s.io/karpenter/pkg/scheduling"
 
 	"verif/harness/ev"
+	"verif/harness/gen"
 	"verif/harness/ref"
+	"verif/harness/sim"
 )
 
 // C13a: in-memory requirements -> NodeClaim.spec.requirements -> parsed back admit exactly the same label values.
@@ -205,3 +212,240 @@ var propC13a = ev.Prop[c13aScenario]{
 }
 
 func TestC13a(t *testing.T) { ev.Run(t, propC13a) }
+
+// ---------------------------------------------------------------------------------------------------------------------
+// C13b: the NodeClaim written to the API carries the scheduler's decision (end to end)
+// ---------------------------------------------------------------------------------------------------------------------
+
+type c13bScenario struct {
+	World    *gen.SchedWorld `json:"world"`
+	MaxTypes int             `json:"maxInstanceTypes"`
+}
+
+func drawC13b(t *rapid.T) *c13bScenario {
+	k := gen.DefaultKnobs()
+	k.MaxNodes = 2
+	k.CustomKeyHeavy = true
+	return &c13bScenario{World: gen.World(t, k), MaxTypes: rapid.SampledFrom([]int{2, 3, 5, 600}).Draw(t, "maxInstanceTypes")}
+}
+
+type memClaim struct {
+	pool     string
+	reqs     map[string]*scheduling.Requirement
+	options  []string
+	pods     []*corev1.Pod
+	template *v1.NodePool
+}
+
+func execC13b(s *c13bScenario, c *ev.Ctx) {
+	old := pscheduling.MaxInstanceTypes
+	pscheduling.MaxInstanceTypes = s.MaxTypes
+	defer func() { pscheduling.MaxInstanceTypes = old }()
+	b := build(s.World, c)
+	w := b.W
+	res, err := b.Provisioner.Schedule(w.Ctx)
+	if err != nil || len(res.NewNodeClaims) == 0 {
+		c.Class("no_new_claims")
+		return
+	}
+	// snapshot the in-memory decision (ToNodeClaim narrows the in-memory requirements while serialising)
+	var mem []memClaim
+	for _, nc := range res.NewNodeClaims {
+		m := memClaim{pool: nc.NodePoolName, reqs: map[string]*scheduling.Requirement{}, pods: b.originals(nc.Pods), template: b.Pools[nc.NodePoolName]}
+		for k, r := range nc.Requirements {
+			cp := *r
+			m.reqs[k] = cp.Intersection(&cp) // deep copy through the algebra
+		}
+		for _, it := range nc.InstanceTypeOptions {
+			m.options = append(m.options, it.Name)
+		}
+		mem = append(mem, m)
+	}
+	names, err := b.Provisioner.CreateNodeClaims(w.Ctx, res.NewNodeClaims)
+	if err != nil {
+		c.Class("create_error")
+		c.Logf("create: %v", err)
+	}
+	compound := false
+	for i, m := range mem {
+		if i >= len(names) || names[i] == "" {
+			continue
+		}
+		api := &v1.NodeClaim{}
+		var gerr error
+		w.Quiet(func() { gerr = w.Client.Get(w.Ctx, client.ObjectKey{Name: names[i]}, api) })
+		if gerr != nil {
+			c.Violate("e2e:nodeclaim-missing", "CreateNodeClaims returned %s but it is not in the API: %v", names[i], gerr)
+			continue
+		}
+		apiReqs := scheduling.NewNodeSelectorRequirementsWithMinValues(api.Spec.Requirements...)
+		strict := !s.World.Options.MinValuesBestEffort
+		var probes []string
+		for _, r := range m.reqs {
+			probes = append(probes, r.Values()...)
+		}
+		probes = append(probes, "zone-a", "zone-b", "zone-c", "on-demand", "spot", "reserved", "amd64", "arm64", "linux", "windows", "f1", "f2", "f3", "0", "1", "2", "3", "4", "5", "6", "05", "a", "b", "c", "x", "y", "zz", "")
+		for k, r := range m.reqs {
+			if k == v1.NodeRegisteredLabelKey || k == v1.NodeInitializedLabelKey || k == corev1.LabelHostname {
+				if apiReqs.Has(k) {
+					c.Violate("e2e:simulation-key-leaked", "NodeClaim %s carries scheduling-simulation key %s", api.Name, k)
+				}
+				continue
+			}
+			if r.MinValues != nil || len(r.Values()) > 1 && r.Operator() != corev1.NodeSelectorOpIn {
+				compound = true
+			}
+			if !apiReqs.Has(k) {
+				c.Violate("e2e:key-dropped", "NodeClaim %s lost requirement key %s (%s)", api.Name, k, r)
+				continue
+			}
+			ar := apiReqs.Get(k)
+			switch k {
+			case corev1.LabelInstanceTypeStable:
+				vals := ar.Values()
+				for _, v := range vals {
+					if !contains(m.options, v) {
+						c.Violate("e2e:instance-type-not-an-option", "NodeClaim %s lists instance type %s that is not among the scheduler's options %v", api.Name, v, m.options)
+					}
+				}
+				if ar.Operator() != corev1.NodeSelectorOpIn || len(vals) == 0 {
+					c.Violate("e2e:instance-type-requirement", "NodeClaim %s instance-type requirement is %s", api.Name, ar)
+				}
+				want := len(m.options)
+				if want > s.MaxTypes {
+					want = s.MaxTypes
+				}
+				if len(vals) != want {
+					c.Violate("e2e:instance-type-count", "NodeClaim %s lists %d instance types, scheduler had %d options and the cap is %d", api.Name, len(vals), len(m.options), s.MaxTypes)
+				}
+				// cheapest prefix: no kept type dearer than a dropped option (C19)
+				var zones, cts []string
+				for _, z := range gen.Zones {
+					if zr, ok := m.reqs[corev1.LabelTopologyZone]; !ok || zr.Has(z) {
+						zones = append(zones, z)
+					}
+				}
+				for _, ct := range []string{"on-demand", "spot", "reserved"} {
+					if cr, ok := m.reqs[v1.CapacityTypeLabelKey]; !ok || cr.Has(ct) {
+						cts = append(cts, ct)
+					}
+				}
+				for _, dropped := range m.options {
+					if contains(vals, dropped) {
+						continue
+					}
+					c.Class("options_truncated")
+					ds, _ := b.itSpec(dropped)
+					for _, kept := range vals {
+						ks, _ := b.itSpec(kept)
+						if pk, pd := refMinPrice(ks, zones, cts), refMinPrice(ds, zones, cts); pk > pd {
+							c.Violate("e2e:dearer-type-kept", "NodeClaim %s keeps %s (%v) but dropped the cheaper option %s (%v)", api.Name, kept, pk, dropped, pd)
+						}
+					}
+				}
+			case v1.CapacityTypeLabelKey:
+				// may be narrowed to the capacity types actually offered, never widened
+				for _, v := range probes {
+					if ar.Has(v) && !r.Has(v) {
+						c.Violate("e2e:capacity-type-widened", "NodeClaim %s admits capacity type %q that the scheduler's requirement %s does not", api.Name, v, r)
+					}
+				}
+			default:
+				for _, v := range probes {
+					if ar.Has(v) != r.Has(v) {
+						c.Violate("e2e:requirement-differs", "NodeClaim %s key %s: API requirement %s admits(%q)=%v, in-memory %s admits=%v", api.Name, k, ar, v, ar.Has(v), r, r.Has(v))
+						break
+					}
+				}
+			}
+			if strict && k != v1.CapacityTypeLabelKey && ((r.MinValues == nil) != (ar.MinValues == nil) || (r.MinValues != nil && *r.MinValues != *ar.MinValues)) {
+				c.Violate("e2e:minvalues", "NodeClaim %s key %s: minValues %s in memory, %s in the API", api.Name, k, ptrStr(r.MinValues), ptrStr(ar.MinValues))
+			}
+			// strict minValues floors still hold for the listed instance types
+			if strict && r.MinValues != nil {
+				distinct := map[string]bool{}
+				for _, n := range apiReqs.Get(corev1.LabelInstanceTypeStable).Values() {
+					it, _ := b.itSpec(n)
+					switch k {
+					case corev1.LabelInstanceTypeStable:
+						distinct[it.Name] = true
+					case sim.LabelFamily:
+						if it.Family != "" {
+							distinct[it.Family] = true
+						}
+					}
+				}
+				if (k == corev1.LabelInstanceTypeStable || k == sim.LabelFamily) && len(distinct) < *r.MinValues {
+					c.Violate("e2e:minvalues-floor", "NodeClaim %s: %d distinct %s among its instance types, minValues %d", api.Name, len(distinct), k, *r.MinValues)
+				}
+			}
+		}
+		for k := range apiReqs {
+			if _, ok := m.reqs[k]; !ok && k != corev1.LabelInstanceTypeStable && k != v1.CapacityTypeLabelKey {
+				c.Violate("e2e:key-invented", "NodeClaim %s has requirement key %s the scheduler did not decide", api.Name, k)
+			}
+		}
+		// resource requests cover the pods placed on it
+		want := ref.SumRequests(m.pods...)
+		for rn, q := range want {
+			if got := api.Spec.Resources.Requests[rn]; got.Cmp(q) < 0 {
+				c.Violate("e2e:requests-too-small", "NodeClaim %s requests %s=%s but its pods %s need %s", api.Name, rn, got.String(), shortPods(m.pods), q.String())
+			}
+		}
+		// template fidelity
+		np := m.template
+		if np != nil {
+			tmpl := np.Spec.Template
+			for k, v := range tmpl.Labels {
+				if api.Labels[k] != v {
+					c.Violate("e2e:template-label", "NodeClaim %s label %s=%q, template says %q", api.Name, k, api.Labels[k], v)
+				}
+			}
+			if api.Labels[v1.NodePoolLabelKey] != np.Name || api.Labels[v1.NodeClassLabelKey(tmpl.Spec.NodeClassRef.GroupKind())] != tmpl.Spec.NodeClassRef.Name {
+				c.Violate("e2e:pool-labels", "NodeClaim %s nodepool / nodeclass labels are %v", api.Name, api.Labels)
+			}
+			if fmt.Sprint(api.Spec.Taints) != fmt.Sprint(tmpl.Spec.Taints) || fmt.Sprint(api.Spec.StartupTaints) != fmt.Sprint(tmpl.Spec.StartupTaints) {
+				c.Violate("e2e:taints", "NodeClaim %s taints %v / %v differ from the template %v / %v", api.Name, api.Spec.Taints, api.Spec.StartupTaints, tmpl.Spec.Taints, tmpl.Spec.StartupTaints)
+			}
+			if !reflect.DeepEqual(api.Spec.NodeClassRef, tmpl.Spec.NodeClassRef) || !reflect.DeepEqual(api.Spec.TerminationGracePeriod, tmpl.Spec.TerminationGracePeriod) || jsonOf(api.Spec.ExpireAfter) != jsonOf(tmpl.Spec.ExpireAfter) {
+				c.Violate("e2e:template-spec", "NodeClaim %s nodeClassRef/terminationGracePeriod/expireAfter differ from the template", api.Name)
+			}
+			if api.Annotations[v1.NodePoolHashAnnotationKey] != np.Hash() || api.Annotations[v1.NodePoolHashVersionAnnotationKey] != v1.NodePoolHashVersion {
+				c.Violate("e2e:hash", "NodeClaim %s hash annotations %q/%q, NodePool hash %q/%q", api.Name, api.Annotations[v1.NodePoolHashAnnotationKey], api.Annotations[v1.NodePoolHashVersionAnnotationKey], np.Hash(), v1.NodePoolHashVersion)
+			}
+			owned := false
+			for _, o := range api.OwnerReferences {
+				owned = owned || (o.Kind == "NodePool" && o.Name == np.Name)
+			}
+			if !owned {
+				c.Violate("e2e:owner", "NodeClaim %s is not owned by NodePool %s", api.Name, np.Name)
+			}
+		}
+		// every concrete label value satisfies the requirement on its key
+		for k, v := range api.Labels {
+			if apiReqs.Has(k) && !apiReqs.Get(k).Has(v) {
+				c.Violate("e2e:label-outside-requirement", "NodeClaim %s label %s=%q is not admitted by its own requirement %s", api.Name, k, v, apiReqs.Get(k))
+			}
+		}
+	}
+	c.ClassIf(compound, "compound_requirement")
+	c.NTIf(compound)
+	c.Class("created")
+	c.Sample(map[string]any{"claims": len(mem), "maxInstanceTypes": s.MaxTypes, "pools": len(s.World.Pools)})
+}
+
+var propC13b = ev.Prop[c13bScenario]{
+	ID: "C13", Test: "TestC13b",
+	Rule: "rapid draws a scheduler world (custom-key heavy pools: In/NotIn/Exists/Gt/Lt on user labels, minValues) and MaxInstanceTypes in {2,3,5,600}; Provisioner.Schedule then CreateNodeClaims run; every NodeClaim is read back from the API and compared with a snapshot of the scheduler's in-memory NodeClaim: " +
+		"per key the serialised requirement admits exactly the in-memory set (instance-type = explicit cheapest subset of the options, capacity-type only narrowed, simulation-only keys dropped), minValues kept and floors met (strict), requests >= sum of its pods, labels/taints/startupTaints/nodeClassRef/TGP/expireAfter/hash/owner from the NodePool template, every label admitted by its own requirement, no panic; " +
+		"non-trivial = a key with minValues or a multi-value complement requirement",
+	Assumptions: []string{"daemon overhead inside spec.resources.requests is not judged (C01 judges fit against allocatable)"},
+	Draw:        drawC13b, Exec: execC13b, ReplayTries: 5,
+}
+
+func TestC13b(t *testing.T) { ev.Run(t, propC13b) }
+
+func jsonOf(v any) string {
+	b, _ := json.Marshal(v)
+	return string(b)
+}
